@@ -102,12 +102,69 @@ def check(prog: Program, run: Run) -> None:
     run.rule("C10.G3", "loaders never read a local that may be unassigned", floor=100)
     _lookup(prog, run)
     _fragment_lists(prog, run)
+    _own_fragments(prog, run)
     _ownership(prog, run)
     _ref_fields(prog, run)
     _phases(prog, run)
     _refresh(prog, run)
     _scope(prog, run)
     _g3(prog, run)
+
+
+def _own_fragments(prog: Program, run: Run) -> None:
+    """A parser that derives the fragment list of the object it builds (`frags =
+    <base>.odx_id.doc_fragments`: container fragment + the layer's own) hands THAT list to every
+    sub-parser it calls afterwards; the list it received itself belongs to the enclosing
+    document only -- an ID parsed with it is not local to the layer."""
+    R = "C10.R1"
+    n = 0
+    for f in prog.iter_functions():
+        if "from_et" not in f.name:
+            continue
+        incoming = [p for p in f.params() if p.endswith("doc_frags")]
+        if not incoming:
+            continue
+        der = [x for x in walk_no_nested(f.node) if isinstance(x, ast.Assign) and isinstance(
+            x.targets[0], ast.Name) and ast.unparse(x.value).endswith(".odx_id.doc_fragments")]
+        # ... or used in place: K.from_et(elem, base.odx_id.doc_fragments)
+        inline = [a for x in walk_no_nested(f.node) if isinstance(x, ast.Call)
+                  for a in list(x.args) + [k.value for k in x.keywords]
+                  if isinstance(a, ast.Attribute) and ast.unparse(a).endswith(
+                      ".odx_id.doc_fragments") and isinstance(a.value.value, ast.Name)]
+        if not der and not inline:
+            continue
+        n += 1
+        if der:
+            own = der[0].targets[0].id
+            line0 = der[0].lineno
+            if own in incoming:
+                run.ok(R, f.qual, f"the derived fragment list shadows the parameter `{own}`: "
+                       "every later sub-parser receives it", f"{f.module.rel}:{der[0].lineno}")
+                continue
+        else:
+            own = ast.unparse(inline[0])
+            base = inline[0].value.value.id  # type: ignore[attr-defined]
+            defs = [x.lineno for x in walk_no_nested(f.node) if isinstance(x, ast.Assign) and
+                    isinstance(x.targets[0], ast.Name) and x.targets[0].id == base]
+            line0 = min(defs) if defs else 0
+        bad = [x for x in walk_no_nested(f.node) if isinstance(x, ast.Call) and "from_et" in (
+            call_name(x) or "") and x.lineno > line0 and any(
+                isinstance(a, ast.Name) and a.id in incoming
+                for a in list(x.args) + [k.value for k in x.keywords])]
+        if bad:
+            for x in bad:
+                run.violation(R, f.qual, f"container-fragments-{call_name(x)}:" +
+                              ast.unparse(x.func)[:40],
+                              f"`{ast.unparse(x)[:70]}` still receives `{incoming[0]}` (the "
+                              f"fragments of the enclosing document) although the object's own "
+                              f"list `{own}` was derived before: IDs and references parsed there "
+                              "are not local to the layer and bind to another layer's object "
+                              "with the same local ID", f"{f.module.rel}:{x.lineno}",
+                              ast.unparse(x)[:80])
+        else:
+            run.ok(R, f.qual, f"every sub-parser after the derivation receives `{own}`", f.loc)
+    if n < 8:
+        raise AnalysisError(f"only {n} parsers derive their own fragment list (expected >= 8)")
 
 
 # ----------------------------------------------------------------------- R1
